@@ -128,9 +128,35 @@ def gen_apply(rng):
 def run_apply(idx, rng, sh):
     from elftools.elf.elffile import ELFFile
     name, mach, cls, le, rela, table, relocs, syms, secdata, zero = gen_apply(rng)
-    img, info = build_rel_image(rng, mach, cls, le, rela, relocs, syms, secdata, etype=rng.choice([1, 1, 1, 3]))
+    extra = []
+    comp = None
+    if rng.random() < 0.35:
+        # companions as in DWARF 5 objects: .debug_str has no relocations of its own, .debug_str_offsets (whose name
+        # extends it) has; every relocation section applies to the section it names, and to no other
+        E = '<' if le else '>'
+        sdata = bytes(rng.getrandbits(8) for _ in range(40))
+        odata = bytes(32) if zero else bytes(rng.getrandbits(8) for _ in range(32))
+        orel = []
+        for _ in range(rng.choice([1, 2])):
+            typ = rng.choice(list(table))
+            orel.append((rng.randrange(0, 32 - table[typ][0] + 1), rng.randrange(len(syms)), typ, rng.choice([0, 4, -4]) if rela else 0))
+        rb = b''.join(pack_rel(E, cls, mach == 8 and cls == 64, *r, rela) for r in orel)
+        relsz = ((24 if rela else 16) if cls == 64 else (12 if rela else 8))
+        extra = [elfgen.Sec('.debug_str', 1, data=sdata), elfgen.Sec('.debug_str_offsets', 1, data=odata),
+                 elfgen.Sec(('.rela' if rela else '.rel') + '.debug_str_offsets', 4 if rela else 9, flags=0x40, data=rb, link='.symtab',
+                            info='.debug_str_offsets', entsize=relsz, align=8)]
+        if rng.random() < 0.5:
+            extra.reverse()
+        comp = (sdata, model_apply(odata, orel, syms, le, rela, table))
+    img, info = build_rel_image(rng, mach, cls, le, rela, relocs, syms, secdata, etype=rng.choice([1, 1, 1, 3]), extra=extra)
     want = model_apply(secdata, relocs, syms, le, rela, table)
     di = ELFFile(io.BytesIO(img)).get_dwarf_info(relocate_dwarf_sections=True)
+    if comp:
+        if di.debug_str_sec.stream.getvalue() != comp[0]:
+            raise Bad('a section without relocations of its own was changed (.debug_str beside .rel[a].debug_str_offsets)', cls=cls, le=le)
+        if di.debug_str_offsets_sec.stream.getvalue() != comp[1]:
+            raise Bad('companion section .debug_str_offsets not relocated as its own relocation section says (%s)' % name, cls=cls, le=le)
+        sh.count('companion_section_pairs')
     got = di.debug_info_sec.stream.getvalue()
     if got != want:
         k = next(i for i, (a, b) in enumerate(zip(got, want)) if a != b)
